@@ -72,14 +72,17 @@ inline std::vector<Mat> ggm(int d) {
 
 struct Basis {
   int d; std::vector<Mat> lam;
-  explicit Basis(int d_) : d(d_), lam(ggm(d_)) {}
-  Mat tomat(const double* c) const { Mat m(d); for (int k = 0; k < d * d; k++) if (c[k] != 0) m = m + cd(c[k], 0) * lam[k]; return m; }
+  struct NZ { int i, j; cd v; };
+  std::vector<std::vector<NZ>> nz;  // non-zero entries of each generator
+  explicit Basis(int d_) : d(d_), lam(ggm(d_)), nz((size_t)d_ * d_) {
+    for (int k = 0; k < d * d; k++) for (int i = 0; i < d; i++) for (int j = 0; j < d; j++) if (lam[k](i, j) != cd(0, 0)) nz[k].push_back(NZ{i, j, lam[k](i, j)});
+  }
+  Mat tomat(const double* c) const { Mat m(d); for (int k = 0; k < d * d; k++) if (c[k] != 0) for (const NZ& e : nz[k]) m(e.i, e.j) += c[k] * e.v; return m; }
   Mat tomat(const std::vector<double>& c) const { return tomat(c.data()); }
   // trace projection: c_0 = Tr M / d, c_k = Re Tr(M lam_k)/2
   std::vector<double> proj(const Mat& M) const {
     std::vector<double> c((size_t)d * d);
-    c[0] = trace(M).real() / d;
-    for (int k = 1; k < d * d; k++) c[k] = trace(M * lam[k]).real() / 2;
+    for (int k = 0; k < d * d; k++) { cd t = 0; for (const NZ& e : nz[k]) t += M(e.j, e.i) * e.v; c[k] = t.real() / (k == 0 ? d : 2); }
     return c;
   }
 };
